@@ -73,6 +73,7 @@ pub fn check(case: &Case, idx: u64, acc: &mut Acc) {
     match case {
         Case::Solve { k, interior, tau8, left_n, right_n } => {
             let (k, left_n, right_n) = (*k, *left_n, *right_n);
+            rat_reset();
             let tr = knots(k, interior);
             let t: Vec<f64> = tr.iter().map(|r| r.f()).collect();
             let basis = Basis::new(k, &tr);
@@ -90,6 +91,20 @@ pub fn check(case: &Case, idx: u64, acc: &mut Acc) {
                     return;
                 }
             };
+            // the exact model needs every unit solution: compute them all now and discard the case if any
+            // exact computation left the i128 range (a limit of the machinery, counted as skipped)
+            for x in eval_points(&basis.u).iter() {
+                for m in 0..k {
+                    for i in 0..n {
+                        let _ = basis.eval(i, m, *x);
+                    }
+                }
+            }
+            if rat_overflowed() {
+                acc.skip();
+                acc.bump("skipped: exact arithmetic left the i128 range");
+                return;
+            }
             let cnd = fnorm(&bm) * fnorm(&inv);
             if cnd > 1e6 {
                 acc.skip();
@@ -293,6 +308,12 @@ pub fn check(case: &Case, idx: u64, acc: &mut Acc) {
                         }
                     }
                 }
+            }
+            if rat_overflowed() {
+                // the exact oracle left the i128 range somewhere in this case: nothing it said is believed
+                acc.violations.retain(|v| v.index != idx);
+                acc.skip();
+                acc.bump("skipped: exact arithmetic left the i128 range");
             }
             if idx % 97 == 0 {
                 acc.sample(|| json!({"k": k, "t": t, "tau": tau_f, "left_n": left_n, "right_n": right_n, "condition": cnd}));
